@@ -48,7 +48,8 @@ def _full_config(sc):
     return {
         "variables": {"initial_values": [float(v) for v in sc["x"]], "lower_bounds": [f(b) for b in sc["lb"]],
                       "upper_bounds": [f(b) for b in sc["ub"]]},
-        "linear_constraints": {"coefficients": [[float(a) for a in sc["a"]]], "lower_bounds": [f(sc["l"])], "upper_bounds": [f(sc["u"])]},
+        "linear_constraints": {"coefficients": [[float(a) for a in sc["a"]]], "lower_bounds": [f(sc["l"])],
+                               "upper_bounds": [f(sc["u"]) + (2.0 ** -12 if sc.get("nar") else 0.0)]},
         "nonlinear_constraints": {"lower_bounds": [float("-inf")], "upper_bounds": [4.0]},
         "realizations": {"weights": [1.0, 3.0]},
         "gradient": {"number_of_perturbations": 3, "perturbation_magnitudes": 0.125 if rel else 0.25,
@@ -127,7 +128,7 @@ def drive(sc):
     cfg_plain = EnOptConfig.model_validate(user_config(sc))
     cfg_opt = EnOptConfig.model_validate(user_config(sc), context=transforms_of(sc))
     x = np.array(sc["x"], dtype=np.float64)
-    e = {"ev": "Pair", "bnd": sc.get("bnd", "finite"), **{k: sc[k] for k in ("s", "o", "fs", "a", "l", "u", "x", "lb", "ub", "ptype")},
+    e = {"ev": "Pair", "bnd": sc.get("bnd", "finite"), **{k: sc[k] for k in ("s", "o", "fs", "a", "l", "u", "x", "lb", "ub", "ptype")}, "nar": int(sc.get("nar", 0)),
          "plain": plain, "trans": trans,
          "which": sc.get("which", "all"), "fail": bool(sc.get("fail", False)),
          "roundtrip": nums(x if transforms.variables is None else transforms.variables.from_optimizer(transforms.variables.to_optimizer(x))),
